@@ -63,6 +63,7 @@ func atomsString(atoms []core.Atom) []string {
 }
 
 func runC01(c *Ctx) {
+	checkFamilySeparation(c)
 	npaths := 0
 	forEachMatcher(c, "R01", func(m *matcherCtx) {
 		p, d, R := c.P, m.d, c.R
